@@ -231,7 +231,8 @@ CHECKS = {
     ),
     "C04": dict(
         category="model_checking",
-        text=("Gauss.Curve uses the very columns of the kernel's design matrix; for every structural point without offsets the row "
+        text=("Gauss.Curve uses the very columns of the kernel's design matrix; for every structural point (with and without survey offsets: at "
+              "the epochs of survey k the row's curve is its orbit plus its dv0_k) the row "
               "emitted by the posterior path (sentinel linear parameters) is turned into samples.get_orbit(0) and its radial velocity "
               "at the data epochs (explicit t_ref before the first epoch, lattice M0 / omega, poly_trend 1..3, random unit assignment) "
               "must equal the specification's curve exactly (TLC); ln_unmarginalized_likelihood must be the jitter-inflated Gaussian "
